@@ -109,7 +109,7 @@ def _sink_declared_scalar(mod: Mod, sink: str) -> bool:
             a = R().visit(ast.parse(a.value, mode="eval").body)
         except SyntaxError:
             return False
-    if not (isinstance(a, ast.Subscript) and ast.unparse(a.value).split(".")[-1] in ("Dict", "dict", "List", "list", "Set", "set", "DefaultDict", "OrderedDict", "Deque", "WeakValueDictionary")):
+    if not (isinstance(a, ast.Subscript) and ast.unparse(a.value).split(".")[-1] in ("Dict", "dict", "List", "list", "Set", "set", "DefaultDict", "OrderedDict", "Deque", "WeakValueDictionary", "IdentityDict", "MutableMapping", "Mapping")):
         return False
     args = list(a.slice.elts) if isinstance(a.slice, ast.Tuple) else [a.slice]
     sc = _ScalarAnn()
